@@ -10,7 +10,7 @@ ALL = ["C%02d" % i for i in range(1, 20)]
 CLAIMED = {
     "C16": ("exploration",
             "randomly generated concurrent programs (rapid) over the public API under the Go race detector, with a hang oracle (real clock, in-memory network)",
-            "rapid-generated programs on a real server and 1..3 real clients: 2..16 goroutines x 5..40 operations over ServerSocket (22 kinds), ClientSocket (20, incl. bursts of connect/disconnect cycles and SetAuth), Namespace/Server/Adapter (16), Manager (10, incl. calls from OnceOpen/OnceClose handlers), session recovery with a cleaner every 2 ms, a third of them performed inside event handlers or ack callbacks of the addressed side, more from connection/disconnecting/disconnect/connect handlers, GOMAXPROCS in {1,2,4,16}, yields at the hook sites. The harness is built with -race; the oracle is the per-program delta of runtime.RaceErrors (report read from the GORACE log and attributed to the repository by the owner of each conflicting access), plus 'every phase returns' (program, an epilogue that uses every socket, manager and the namespace again, teardown), decided by two goroutine dumps 10 s apart that show the same goroutines parked in repository frames. Quick 240 programs, thorough 12 000; thorough also runs the other properties' rigs under the race detector and attributes any race in repository code to C16 (c16-rig-race). c16-send-during-upgrade (c07-upgrade run under this property): Sends from several goroutines, forced at yield points, while the library swaps transports; a call that never returns is a deadlock. Sampling of schedules: a pass means no race / hang in the programs run, nothing more.",
+            "rapid-generated programs on a real server and 1..3 real clients: 2..16 goroutines x 5..40 operations over ServerSocket (22 kinds), ClientSocket (20, incl. bursts of connect/disconnect cycles and SetAuth), Namespace/Server/Adapter (16), Manager (10, incl. calls from OnceOpen/OnceClose handlers), session recovery with a cleaner every 2 ms, a third of them performed inside event handlers or ack callbacks of the addressed side, more from connection/disconnecting/disconnect/connect handlers, GOMAXPROCS in {1,2,4,16}, yields at the hook sites. The harness is built with -race; the oracle is the per-program delta of runtime.RaceErrors (report read from the GORACE log and attributed to the repository by the owner of each conflicting access), plus 'every phase returns' (program, an epilogue that uses every socket, manager and the namespace again, teardown), decided by two goroutine dumps 10 s apart that show the same goroutines parked in repository frames. Quick 240 programs, thorough 12 000; thorough also runs the other properties' rigs under the race detector and attributes any race in repository code to C16 (c16-rig-race). c16-send-during-upgrade (c07-upgrade run under this property): Sends from several goroutines, forced at yield points, while the library swaps transports; a call that never returns is a deadlock. c16-retry-queue-reentrancy (c15-retry-queue run under this property): ack functions that emit again while the retry queue gives a packet up. Sampling of schedules: a pass means no race / hang in the programs run, nothing more.",
             "The instrumented-mutex build (tag sio_deadlock) is not used as an oracle: a potential lock-order inversion is not a deadlock, and reporting it would raise false alarms; hangs are decided by the watchdog only.",
             "DESIGN.md §3 C16"),
     "C01": ("exploration",
